@@ -322,6 +322,24 @@ NamesUnique ==
 DeadIsEmpty ==
     Holds(16, ~st.alive, st.left = {} /\ st.params = <<>>)
 
+(* Demonstration only (CalStoreMC_pinned.cfg, not part of the check): the  *)
+(* teardown as the pinned tree coded it -- assert that no parameter met is *)
+(* already deleted and that each slot is empty right after its release --  *)
+(* is NOT safe in every reachable state; TLC produces the history.         *)
+RECURSIVE PinnedWalk(_, _)
+PinnedWalk(P, i) ==
+    IF i < 3 THEN TRUE
+    ELSE IF i \in DOMAIN P
+         THEN /\ ~P[i].deleted
+              /\ LET Q == Release([P EXCEPT ![i].deleted = TRUE], i)
+                 IN i \notin DOMAIN Q /\ PinnedWalk(Q, i - 1)
+    ELSE PinnedWalk(P, i - 1)
+
+PinnedTeardownSafe ==
+    st.alive =>
+       LET P1 == FreeNews(st.params, st.news, DOMAIN st.news)
+       IN PinnedWalk(P1, MaxOf(DOMAIN P1))
+
 NonVacuous ==
     \A i \in 1..NCounters :
        \/ TLCGet(i) > 0
